@@ -26,6 +26,9 @@ pub const BASE: &str = r#"
 (define (base-f x) (+ x base-a))
 (define base-box (box 77))
 (define base-vec (mutable-vector 1 2 3))
+(define wind-outs (box 0))
+(define (wind-out!) (set-box! wind-outs (+ 1 (unbox wind-outs))))
+(define base-param (make-parameter 'default))
 "#;
 
 /// (name, source, rendered final value, names it defines)
@@ -35,7 +38,7 @@ pub const CORPUS: &[(&str, &str, &str, &[&str])] = &[
     ("map-callback", "(define r4 (map (lambda (x) (* x x)) (range 0 30)))\n(apply + r4)", "8555", &["r4"]),
     ("transducer", "(define r5 (transduce (range 0 50) (mapping (lambda (x) (+ x 1))) (into-sum)))\nr5", "1275", &["r5"]),
     ("sort-comparator", "(define r6 (sort (list 3 1 2 9 4 7 5) <))\nr6", "(1 2 3 4 5 7 9)", &["r6"]),
-    ("dynamic-wind", "(define wlog '())\n(define r8 (dynamic-wind (lambda () (set! wlog (cons 'in wlog))) (lambda () (loop 30 0)) (lambda () (set! wlog (cons 'out wlog)))))\n(list r8 wlog)", "(465 (out in))", &["wlog", "r8"]),
+    ("dynamic-wind", "(define wlog '())\n(define r8 (dynamic-wind (lambda () (set! wlog (cons 'in wlog))) (lambda () (loop 30 0)) (lambda () (wind-out!) (set! wlog (cons 'out wlog)))))\n(list r8 wlog)", "(465 (out in))", &["wlog", "r8"]),
     ("handler", "(define r9 (with-handler (lambda (e) (loop 10 0)) (begin (loop 30 0) (error \"x\"))))\nr9", "55", &["r9"]),
     ("callcc-escape", "(define r10 (call/cc (lambda (k) (let lp ((i 0)) (if (= i 40) (k i) (lp (+ i 1)))))))\nr10", "40", &["r10"]),
     ("hash-string", "(define r12 (let ((h (hash 'a 1 'b 2))) (hash-ref (hash-insert h 'c 3) 'c)))\n(define r12b (string-append \"ab\" (number->string (loop 10 0))))\n(list r12 r12b)", "(3 \"ab55\")", &["r12", "r12b"]),
@@ -50,15 +53,17 @@ pub const CORPUS: &[(&str, &str, &str, &[&str])] = &[
     ("for-each", "(define r23b (let ((acc 0)) (for-each (lambda (x) (set! acc (+ acc x))) (range 0 10)) acc))\nr23b", "45", &["r23b"]),
     ("parameterize", "(define p24 (make-parameter 1))\n(define r24 (parameterize ((p24 2)) (+ (p24) (loop 10 0))))\n(list r24 (p24))", "(57 1)", &["p24", "r24"]),
     ("host-in-map", "(define r30 (map (lambda (x) (host-op x)) (range 0 8)))\n(apply + r30)", "36", &["r30"]),
-    ("host-in-wind", "(define wlog2 '())\n(define r31 (dynamic-wind (lambda () (set! wlog2 (cons 'in wlog2))) (lambda () (+ (host-op 1) (host-op 2))) (lambda () (set! wlog2 (cons 'out wlog2)))))\n(list r31 wlog2)", "(5 (out in))", &["wlog2", "r31"]),
+    ("host-in-wind", "(define wlog2 '())\n(define r31 (dynamic-wind (lambda () (set! wlog2 (cons 'in wlog2))) (lambda () (+ (host-op 1) (host-op 2))) (lambda () (wind-out!) (set! wlog2 (cons 'out wlog2)))))\n(list r31 wlog2)", "(5 (out in))", &["wlog2", "r31"]),
     ("host-in-handler", "(define r32 (with-handler (lambda (e) (host-op 10)) (begin (host-op 1) (error \"y\"))))\nr32", "11", &["r32"]),
     ("host-in-args", "(define r33 (+ (host-op 1) (loop 5 0) (host-op (host-op 2))))\nr33", "21", &["r33"]),
     ("host-in-transduce", "(define r34 (transduce (range 0 6) (mapping (lambda (x) (host-op x))) (into-list)))\nr34", "(1 2 3 4 5 6)", &["r34"]),
-    ("wind-in-handler-in-map", "(define wlog3 '())\n(define r35 (map (lambda (x) (with-handler (lambda (e) -1) (dynamic-wind (lambda () (set! wlog3 (cons x wlog3))) (lambda () (if (= x 2) (error \"two\") (* x 10))) (lambda () (set! wlog3 (cons (- 0 x) wlog3)))))) (list 1 2 3)))\n(list r35 (length wlog3))", "((10 -1 30) 6)", &["wlog3", "r35"]),
+    ("wind-in-handler-in-map", "(define wlog3 '())\n(define r35 (map (lambda (x) (with-handler (lambda (e) -1) (dynamic-wind (lambda () (set! wlog3 (cons x wlog3))) (lambda () (if (= x 2) (error \"two\") (* x 10))) (lambda () (wind-out!) (set! wlog3 (cons (- 0 x) wlog3)))))) (list 1 2 3)))\n(list r35 (length wlog3))", "((10 -1 30) 6)", &["wlog3", "r35"]),
     ("deep-native-callback", "(define (cb1 x) (+ 1 (host-op x)))\n(define (cb2 x) (+ 1 (cb1 x)))\n(define (run-tr n) (+ 1 (apply + (transduce (range 0 n) (mapping (lambda (x) (cb2 x))) (into-list)))))\n(define r40 (with-handler (lambda (e) -1) (run-tr 4)))\nr40", "19", &["cb1", "cb2", "run-tr", "r40"]),
     ("handler-in-function-around-native", "(define (cb3 x) (+ 2 (host-op x)))\n(define (run-tr2 n) (+ 1 (apply + (transduce (range 0 n) (filtering (lambda (x) (> (cb3 x) 0))) (mapping (lambda (x) (cb3 x))) (into-list)))))\n(define (guarded n) (with-handler (lambda (e) (loop 3 0)) (run-tr2 n)))\n(define r41 (list (guarded 3) (guarded 2)))\nr41", "(13 8)", &["cb3", "run-tr2", "guarded", "r41"]),
     ("error-in-native-callback-caught", "(define (bad1 x) (+ 1 (car x)))\n(define (bad2 x) (+ 1 (bad1 x)))\n(define (run-bad) (+ 1 (apply + (transduce (list 1 2 3) (mapping (lambda (x) (+ 1 (bad2 x)))) (into-list)))))\n(define r42 (list (with-handler (lambda (e) 'caught) (run-bad)) (loop 4 0)))\nr42", "(caught 10)", &["bad1", "bad2", "run-bad", "r42"]),
     ("sort-deep-comparator", "(define (lt2 a b) (< (host-op a) (host-op b)))\n(define (lt1 a b) (lt2 a b))\n(define (sorted xs) (sort xs (lambda (a b) (lt1 a b))))\n(define r43 (car (sorted (list 3 1 2))))\nr43", "1", &["lt2", "lt1", "sorted", "r43"]),
+    ("parameterize-base", "(define r44 (parameterize ((base-param 'inner)) (list (base-param) (loop 10 0))))\n(list r44 (base-param))", "((inner 55) default)", &["r44"]),
+    ("wind-in-function-with-host", "(define (w45 a) (dynamic-wind (lambda () 0) (lambda () (+ a (host-op a))) (lambda () (wind-out!))))\n(define r45 (list 1 (w45 3)))\nr45", "(1 7)", &["w45", "r45"]),
     ("callcc-reenter", "(define r36 (let ((k #f) (n 0)) (let ((v (+ 100 (call/cc (lambda (c) (set! k c) 0))))) (if (< n 3) (begin (set! n (+ n 1)) (k n)) (list v n)))))\nr36", "(103 3)", &["r36"]),
 ];
 
@@ -72,7 +77,9 @@ pub const FAILING: &[(&str, &[&str])] = &[
     ("error-in-sort-comparator-in-function", &["(define (cmp-bad a b) (< (car a) b))\n(define (sort-bad x y) (+ x y (car (sort (list 3 1 2) (lambda (a b) (cmp-bad a b))))))", "(sort-bad 1 2)"]),
     ("error-in-argument-of-deep-call", &["(define (f49 a b c) (+ a b c))\n(define (g49 x) (f49 x (f49 1 2 (car x)) 3))", "(+ 1 (g49 5))"]),
     ("error-inside-dynamic-wind-in-function", &["(define (w50 a) (dynamic-wind (lambda () 0) (lambda () (+ a (car a))) (lambda () 0)))", "(list 1 2 (w50 3))"]),
-    ("continuation-from-failed-evaluation", &["(define k51 #f)", "(+ 1 (call/cc (lambda (c) (set! k51 c) (error \"boom\"))))", "(k51 10)"]),
+    ("host-initiated-call-fails", &["(define (hc52 a b) (+ a (car b)))", "#call hc52"]),
+    ("error-inside-dynamic-wind-with-counter", &["(define (w53 a) (dynamic-wind (lambda () 0) (lambda () (+ a (car a))) (lambda () (wind-out!))))", "(list 1 2 (w53 3))"]),
+    ("error-inside-parameterize", &["(define (p54 a) (parameterize ((base-param 'inner)) (+ a (car a))))", "(list 1 (p54 3))"]),
 ];
 
 static HOST_CALLS: AtomicU64 = AtomicU64::new(0);
@@ -165,6 +172,21 @@ fn program_with_fault(pi: usize, kind: &str, at: u64) -> String {
     }
 }
 
+/// Dynamic state must be as the failed evaluation found it: the parameters have
+/// their global values again. (A continuation kept from an earlier evaluation
+/// cannot serve as an observer of the wind list: the instructions of a finished
+/// evaluation are freed, see DESIGN.md section 10.)
+fn check_dynamic_state(engine: &mut steel::steel_vm::engine::Engine, what: &str, kind: &str, prog: &str) {
+    vmh::set_context("dynamic-state-probe");
+    let got = vmh::eval(engine, "(base-param)").map(|v| v.last().cloned().unwrap_or_default());
+    if got.as_deref() != Ok("default") {
+        report::violation(
+            &format!("C07/dynamic-state-residue/{}/{}", kind, prog),
+            format!("{}: after the evaluation returned, (base-param) at top level is {:?}, not its global value", what, got),
+        );
+    }
+}
+
 fn check_engine_usable(engine: &mut steel::steel_vm::engine::Engine, what: &str) {
     let st = engine.verif_stack_state();
     if st.stack != 0 || st.frames != 0 {
@@ -196,7 +218,14 @@ fn run_own(engine: &mut steel::steel_vm::engine::Engine, p: &Planned, seq: usize
     HOST_FAIL_AT.store(u64::MAX, Ordering::SeqCst);
     let mut failed = 0;
     for piece in prog.1 {
-        if vmh::eval(engine, piece).is_err() {
+        let is_err = match piece.strip_prefix("#call ") {
+            // a call that the host starts itself, outside Engine::run
+            Some(name) => engine
+                .call_function_by_name_with_args(name, vec![SteelVal::IntV(1), SteelVal::IntV(2)])
+                .is_err(),
+            None => vmh::eval(engine, piece).is_err(),
+        };
+        if is_err {
             failed += 1;
         }
         let st = engine.verif_stack_state();
@@ -215,6 +244,7 @@ fn run_own(engine: &mut steel::steel_vm::engine::Engine, p: &Planned, seq: usize
         );
     }
     check_engine_usable(engine, &what);
+    check_dynamic_state(engine, &what, "own", prog.0);
 }
 
 fn run_faulted(engine: &mut steel::steel_vm::engine::Engine, p: &Planned, seq: usize) {
@@ -261,6 +291,7 @@ fn run_faulted(engine: &mut steel::steel_vm::engine::Engine, p: &Planned, seq: u
         _ => {}
     }
     check_engine_usable(engine, &what);
+    check_dynamic_state(engine, &what, if fired { p.kind } else { "none" }, prog.0);
     // definitions of the hit program: absent (error / empty slot) or complete
     if fired {
         vmh::set_context(&format!("after-{}/{}", p.kind, prog.0));
@@ -439,7 +470,7 @@ impl Scenario for C07 {
     }
 
     fn rule(&self) -> String {
-        format!("fault enumeration: {} corpus programs x 2 tiers x (an interrupt at every dispatch step + a host-function error at every host call + a failing form (compile-time and run-time) spliced at every form position), plus {} programs that fail by themselves (non-procedure handlers, errors deep inside callbacks of native procedures called from functions, a continuation kept from a failed evaluation); the plan has {} entries and run i executes entry i mod plan (all entries are executed once in the quick tier), followed by 0-3 further faulted evaluations of random programs on the same engine, each followed by stack check, probe program, definition check and a clean re-run; non-trivial = every run; distinct = distinct (workload, event trace)", CORPUS.len(), FAILING.len(), PLAN.lock().unwrap().len())
+        format!("fault enumeration: {} corpus programs x 2 tiers x (an interrupt at every dispatch step + a host-function error at every host call + a failing form (compile-time and run-time) spliced at every form position), plus {} programs that fail by themselves (non-procedure handlers, errors deep inside callbacks of native procedures called from functions, an error inside parameterize); the plan has {} entries and run i executes entry i mod plan (all entries are executed once in the quick tier), followed by 0-3 further faulted evaluations of random programs on the same engine, each followed by stack check, probe program, definition check and a clean re-run; non-trivial = every run; distinct = distinct (workload, event trace)", CORPUS.len(), FAILING.len(), PLAN.lock().unwrap().len())
     }
     fn assumptions(&self) -> Vec<String> {
         vec![
